@@ -272,7 +272,11 @@ def leaveRegistry : List (String × String) := [
   ("DirectiveDefinition", "leave_directive_definition")
 ]
 
-def table : Table := { methods := methods, visit := visitDispatch, dispatchers := dispatchers, slots := slots }
+/-- the wrapper runs the method of the class of the node RETURNED by `enter` when that class differs from the
+    argument's (observed on the real code by `probe_cross_kind`; true with proposed fix C18-W7) -/
+def crossKind : Bool := true
+
+def table : Table := { methods := methods, visit := visitDispatch, dispatchers := dispatchers, slots := slots, crossKind := crossKind }
 
 /-! witness documents, parsed by the real parser on this run (attribute `loc` dropped, ids = pre-order numbers) -/
 /-- `query Q($v: [Int!] = 1 @d, $u: Int!) { ... on T { a } } fragment F($w: Int) on T { a }` -/
